@@ -119,10 +119,18 @@ impl<'a> SessionData<'a> {
     }
 
     pub(super) fn next_packet_id(&mut self) -> u16 {
-        let packet_id = self.packet_id.get();
-        self.packet_id =
-            NonZeroU16::new(packet_id.wrapping_add(1)).unwrap_or(NonZeroU16::new(1).unwrap());
-        packet_id
+        loop {
+            let packet_id = self.packet_id.get();
+            self.packet_id =
+                NonZeroU16::new(packet_id.wrapping_add(1)).unwrap_or(NonZeroU16::new(1).unwrap());
+            // After the counter wraps, skip identifiers of operations still awaiting their final
+            // acknowledgement. At most `MAX_RETAINED + MAX_PENDING_RELEASE` are in use, so this ends.
+            if !self.outbound.has_retained(packet_id)
+                && !self.outbound.has_pending_release(packet_id)
+            {
+                return packet_id;
+            }
+        }
     }
 }
 
